@@ -39,6 +39,12 @@ class Rig:
             cur = self.out
             ads = []
             for pi, a in enumerate(c["chain"]):
+                if pi < c.get("shared_len", 0):
+                    # fan-out at an adapter: the very same (stateless, branchable) instances as the base consumer
+                    ad = self.adapters[c["shared_with"]][pi]
+                    ads.append(ad)
+                    cur = ad
+                    continue
                 ad = make_adapter(a)
                 if c.get("mem_limit") is not None:
                     ad.memory_limit = c["mem_limit"]
